@@ -84,15 +84,22 @@ func dischargeAll(ctx *Ctx, obls []*Obligation, timeoutS, par int, dump string) 
 					d    int
 					hide bool
 				}
-				for _, a := range []att{{-1, true}, {1, true}, {0, true}, {1, false}, {2, false}, {4, false}} {
+				atts := []att{{-1, true}, {1, true}, {0, true}, {1, false}, {2, false}, {4, false}}
+				if len(o.Using) > 0 {
+					atts = append([]att{{-2, true}}, atts...)
+				}
+				for _, a := range atts {
 					small := o.RenderOpts(a.d, a.hide)
 					if seenLen[len(small)] || (!a.hide && len(small) >= len(script)*9/10) {
 						continue
 					}
 					seenLen[len(small)] = true
 					tag := fmt.Sprintf("near%d", a.d)
-					if a.d < 0 {
+					if a.d == -1 {
 						tag = "fam"
+					}
+					if a.d == -2 {
+						tag = "using"
 					}
 					if a.hide {
 						tag += "h"
@@ -100,7 +107,7 @@ func dischargeAll(ctx *Ctx, obls []*Obligation, timeoutS, par int, dump string) 
 					if dump != "" {
 						os.WriteFile(filepath.Join(dump, fmt.Sprintf("%s.%s.smt2", sanitize(o.Name), tag)), []byte(small), 0o644)
 					}
-					if r := Solve(small, minInt(timeoutS, 4), nil); r.Status == "unsat" {
+					if r := Solve(small, minInt(timeoutS, 4), []string{"z3-new", "z3-new/eager", "cvc5"}); r.Status == "unsat" {
 						r.Solver += "(" + tag + ")"
 						out[i] = Discharged{o, r}
 						solved = true
